@@ -23,14 +23,21 @@ def field(rng, maxg=5, maxa=4):
             for _ in range(rng.randint(0, maxg))]
 
 
+LONG_WS = 0.02       # probability of a long run of blanks (column-aligned control files): 16, 17, 32, 33, 100 characters
+
+
 def ws(rng, nonempty=False):
     w = rng.choice(WS)
+    if rng.random() < LONG_WS:
+        w = rng.choice([' ', '\t', ' \n ']) * rng.choice([16, 17, 32, 33, 100])
     if nonempty and not w:
         w = ' '
     return w
 
 
 def sp(rng):
+    if rng.random() < LONG_WS:
+        return ' ' * rng.choice([16, 17, 32, 33, 100])
     return rng.choice(['', ' ', '  ', ' \t', ' \n'])
 
 
